@@ -280,7 +280,9 @@ class AsyncServer(base_server.BaseServer):
         try:
             await asyncio.wait_for(callback_event.wait(), timeout)
         except asyncio.TimeoutError:
-            raise exceptions.TimeoutError() from None
+            if not callback_args:
+                raise exceptions.TimeoutError() from None
+            # (acknowledged just as the timeout expired)
         return callback_args[0] if len(callback_args[0]) > 1 \
             else callback_args[0][0] if len(callback_args[0]) == 1 \
             else None
